@@ -19,6 +19,12 @@ def sh(cmd, **kw):
   return subprocess.run(cmd, capture_output=True, text=True, **kw)
 
 
+def install_ptenv():
+  """/tmp/ptenv (ptboot.py + build_ext.sh, used by every demo.py) is installed from tools/ptenv on demand."""
+  if not os.path.exists("/tmp/ptenv/ptboot.py"):
+    shutil.copytree(os.path.join(VERIF, "tools", "ptenv"), "/tmp/ptenv", dirs_exist_ok=True)
+
+
 class Worktree:
   def __init__(self, patch=None):
     self.dir = tempfile.mkdtemp(prefix="seedwt_", dir="/tmp")
@@ -33,6 +39,7 @@ class Worktree:
       assert r.returncode == 0, "patch does not apply: " + r.stderr
 
   def build(self):
+    install_ptenv()
     r = sh(["/tmp/ptenv/build_ext.sh", self.dir, self.ext])
     assert r.returncode == 0, r.stderr[-2000:]
 
@@ -51,6 +58,7 @@ def run_demo(wt, demo):
 
 
 def verify(d):
+  d = os.path.abspath(d)
   patch, demo = os.path.join(d, "patch.diff"), os.path.join(d, "demo.py")
   out = {}
   wt = Worktree()
@@ -79,6 +87,7 @@ def verify(d):
 
 
 def check(d, pid, tier="quick"):
+  d = os.path.abspath(d)
   wt = Worktree(os.path.join(d, "patch.diff"))
   try:
     env = dict(os.environ, VERIF_REPO=wt.dir, VERIF_CONFIRM="1")
